@@ -57,6 +57,7 @@ func checkC14(P *Prog, r *Result) {
 	// and in a Go map, not a scalar that reads as absent (C15's rule)
 	shareRule(P, r, checkC15, "C15/list-key-always-list", nil, "C14/list-presentation-agrees", 1)
 	P.checkNoBoxedReflectValue(r, "C14/typed-map-leaves-unboxed")
+	P.checkEnvLeafFormula(r, "C14/env-leaf-is-trimmed-value")
 	r.floor("C14/getbyfield-agreement", 3)
 	// the key of a field depends only on (field, schema key, the provider's own tag): the canonical return table
 	P.checkTagPriority(r, "C14/key-resolution")
@@ -106,6 +107,12 @@ func checkC14(P *Prog, r *Result) {
 					case "CTX-DATA", "NEWCTX":
 						if it.aux != nil {
 							fresh[it.aux] = it.val == "fresh"
+							// `subCtx.Data = ctx.Data` after a helper stored the factory's result into ctx.Data
+							if st, isSt := it.in.(*ssa.Store); isSt && it.val == "same" {
+								if src, _ := loadOfField(cvi(st.Val)); src != nil && fresh[cv(src)] {
+									fresh[it.aux] = true
+								}
+							}
 						}
 					case "CHILD":
 						if it.aux != nil && !fresh[it.aux] {
@@ -371,13 +378,28 @@ func checkC15(P *Prog, r *Result) {
 			}
 		})
 		// the url.Values the provider is built over (directly, or through a helper such as form(values, &tag))
+		// (every provider the parser can build: a second source behind a condition - `if r.Form != nil` - counts)
+		srcs := map[string]bool{}
 		for _, b := range P.valuesProviderBuilds(f) {
+			one := "?"
 			if _, fl := loadOfField(b.data); fl != nil {
-				src = "r." + fl.Name()
+				one = "r." + fl.Name()
 			}
 			if c, ok := b.data.(*ssa.Call); ok && callOf(c).static != nil {
-				src = callOf(c).static.String()
+				one = callOf(c).static.String()
 			}
+			srcs[one] = true
+		}
+		for k := range srcs {
+			src = k
+		}
+		if len(srcs) > 1 {
+			var ks []string
+			for k := range srcs {
+				ks = append(ks, k)
+			}
+			sort.Strings(ks)
+			src = strings.Join(ks, " | ")
 		}
 		switch {
 		case nm == "Form" && parseForm && src == "r.Form":
@@ -1220,6 +1242,39 @@ func (P *Prog) checkSourceOpenWhileRead(r *Result) {
 		})
 	}
 	r.floor("C15/source-open-while-read", 1)
+	// ... and the JSON front end hands the *whole* body to the decoder: nothing of the source is consumed by a byte-level
+	// read outside encoding/json (skipping to the first '{' "because we only accept objects anyway" turns
+	// `[{"admin":true}]` and `name=x&meta={"admin":true}` into objects)
+	nr := 0
+	for _, fn := range P.Funcs {
+		if !strings.HasSuffix(funcPkgPath(fn), "/zjson") {
+			continue
+		}
+		eachInstr(fn, func(_ *ssa.BasicBlock, _ int, in ssa.Instruction) {
+			ci := callOf(in)
+			if ci == nil {
+				return
+			}
+			name, pkg := "", ""
+			switch {
+			case ci.static != nil:
+				name, pkg = ci.static.Name(), funcPkgPath(ci.static)
+			case ci.invoke != nil:
+				name = ci.invoke.Name()
+				if ci.invoke.Pkg() != nil {
+					pkg = ci.invoke.Pkg().Path()
+				}
+			}
+			if pkg == "encoding/json" || inModule(pkg) {
+				return
+			}
+			switch name {
+			case "Read", "ReadByte", "ReadBytes", "ReadString", "ReadRune", "ReadLine", "ReadSlice", "Discard", "ReadAll", "ReadFull", "ReadAtLeast", "Copy", "CopyN", "WriteTo", "Seek", "Scan":
+				nr++
+				r.bad("C15/source-open-while-read", fmt.Sprintf("%s#raw-read@%d", fname(fn), nr), P.ipos(in), "the JSON front end consumes bytes of its source with "+name+" outside the decoder: what is skipped is never validated, so a body that is not a JSON object can be decoded as the object it happens to contain")
+			}
+		})
+	}
 }
 
 // checkProviderFromCheckedValue: the record a provider is built from is the input itself: a value obtained from the
@@ -1520,5 +1575,35 @@ func (P *Prog) checkNoBoxedReflectValue(r *Result, rule string) {
 	}
 	if n == 0 {
 		r.ok(rule, "module", "-", "no reflect.Value is boxed into an interface and stored or returned as data")
+	}
+}
+
+// checkEnvLeafFormula: the documented per-source difference of the environment front end is whitespace trimming and
+// nothing else. The provider's Get therefore is, on its single path, TrimSpace of the variable's value: the formula
+// of the method (helpers entered, locals resolved) is compared with that row. Unquoting, lower-casing, expanding or
+// defaulting the value there makes env the one front end where `'tis` or `"x"` is not the value that was given.
+func (P *Prog) checkEnvLeafFormula(r *Result, rule string) {
+	n := 0
+	for _, fn := range P.Funcs {
+		if fn.Name() != "Get" || fn.Parent() != nil || fn.Signature.Recv() == nil || !strings.HasSuffix(funcPkgPath(fn), "/zenv") || !P.isProviderType(fn.Signature.Recv().Type()) || len(fn.Params) != 2 {
+			continue
+		}
+		n++
+		r.sawFunc(fname(fn))
+		sh := P.predicateShapeNamed(fn, map[ssa.Value]string{fn.Params[0]: "recv", fn.Params[1]: "key"})
+		var rows []string
+		for _, p := range sh.paths {
+			rows = append(rows, strings.Join(p.conds, " ∧ ")+" ⇒ "+p.ret)
+		}
+		okRow := len(sh.problems) == 0 && len(sh.paths) == 1 && len(sh.paths[0].conds) == 0 &&
+			(sh.paths[0].ret == "strings.TrimSpace(os.Getenv(key))" || sh.paths[0].ret == "strings.TrimSpace(syscall.Getenv(key)#0)")
+		if okRow {
+			r.ok(rule, fname(fn), P.pos(fn.Pos()), "Get(key) = strings.TrimSpace(os.Getenv(key))", rows...)
+		} else {
+			r.bad(rule, fname(fn), P.pos(fn.Pos()), "the environment provider's Get is not TrimSpace of the variable's value: the same record given through env differs from the other front ends by more than the documented whitespace trimming", rows...)
+		}
+	}
+	if n == 0 {
+		r.undecided(rule, "zenv provider Get", "-", "not found")
 	}
 }
